@@ -300,6 +300,11 @@ pub struct WorldSys {
 	pub settle_on_chain: bool,
 	/// (payment index, kind, limit read, minimum read)
 	pub probes: Vec<(usize, ProbeKind, u64, u64)>,
+	/// false: at-limit probes are only a way to send "exactly the limit"; whether they go through is not
+	/// judged (scenarios in which the peer changes the channel concurrently, so the limit read is stale)
+	pub judge_probes: bool,
+	/// probes (payment index) issued while the prober's own update_fee was in flight
+	pub probes_with_fee_in_flight: Vec<usize>,
 }
 
 impl WorldSys {
@@ -348,6 +353,8 @@ impl WorldSys {
 			mgr_holds_done: 0,
 			crash_nodes: Vec::new(),
 			probes: Vec::new(),
+			judge_probes: true,
+			probes_with_fee_in_flight: Vec::new(),
 		}
 	}
 
@@ -553,9 +560,22 @@ impl WorldSys {
 						detail: String::new(),
 					});
 					if applicable {
+						// does the prober have an update_fee of its own in flight (sent, the peer's revoke_and_ack for
+						// the commitment carrying it not yet received)?
+						let mut fee_in_flight = false;
+						for o in self.w.obs.iter() {
+							match o {
+								Obs::Sent { from, wire: crate::world::Wire::Fee(m), .. } if *from == node && m.channel_id == cid => fee_in_flight = true,
+								Obs::Delivered { to, wire: crate::world::Wire::Raa(m), .. } if *to == node && m.channel_id == cid => fee_in_flight = false,
+								_ => {},
+							}
+						}
 						self.w.send_payment_ext(node, &[(peer, cid)], amt.unwrap(), ClaimPolicy::Claim, 0, 0);
 						let last = self.w.payments.len() - 1;
 						self.probes.push((last, kind, lim, min));
+						if fee_in_flight {
+							self.probes_with_fee_in_flight.push(last);
+						}
 					}
 				}
 			},
@@ -1091,9 +1111,23 @@ impl System for WorldSys {
 			let add_sent = self.w.obs.iter().any(|o| matches!(o, Obs::Sent { wire: crate::world::Wire::Add(m), .. } if m.payment_hash == p.hash));
 			let sent = self.w.obs.iter().any(|o| matches!(o, Obs::Event { ev: Event::PaymentSent { payment_hash, .. }, .. } if *payment_hash == p.hash));
 			let failed = self.w.obs.iter().any(|o| matches!(o, Obs::Event { ev: Event::PaymentFailed { payment_hash: Some(h), .. }, .. } if *h == p.hash));
+			if !self.judge_probes {
+				label.push_str(&format!("{:?}:{}:{}{};", kind, lim, if sent { "S" } else { "" }, if failed { "F" } else { "" }));
+				continue;
+			}
 			match kind {
 				ProbeKind::AtLimit | ProbeKind::AtMin => {
 					crate::runner::witness(if kind == ProbeKind::AtLimit { "probe-at-limit" } else { "probe-at-minimum" });
+					if kind == ProbeKind::AtLimit && self.probes_with_fee_in_flight.contains(&pi) && p.send_ok && !add_sent && !sent && failed {
+						// root cause named: the limit was read while the sender's own feerate increase was in flight
+						return Err(Failure::new(
+							"send-limits-exact",
+							format!(
+								"fields=[limit-reported-while-own-update_fee-in-flight-ignores-the-new-feerate]: HTLC of {} msat, exactly the reported next_outbound_htlc_limit_msat, was queued behind the sender's own uncommitted update_fee and refused locally when released (PaymentFailed, nothing sent, channel unharmed)",
+								p.amount_msat
+							),
+						));
+					}
 					if !p.send_ok || !add_sent || !sent {
 						return Err(Failure::new(
 							"send-limits-exact",
